@@ -1,6 +1,37 @@
-From Coq Require Import List.
-From PG Require Import Graph.MGraph C07.Model.
-(* placeholder until the proofs land *)
-Theorem c07_placeholder : forall g, valid_mag_model g = valid_mag_model g.
-Proof. reflexivity. Qed.
-Print Assumptions c07_placeholder.
+(* C07 — valid_mag and is_maximal decide the MAG definition.  Statements: C07/Spec.v.
+   Unbounded: valid_mag_local (valid_mag = one edge per pair /\ acyclic /\ ancestral /\ is_maximal), undirected_rejected,
+   has_adc_gap (+ has_adc_bow_missed: the gap is real).
+   Bounded (all ADMGs, bows allowed, on <= 4 nodes; kernel computation in 16 shards): maximal_is_separable_bounded_4,
+   valid_mag_bounded_4 (the full unbounded statements are Spec.maximal_is_separable_stmt / valid_mag_full_stmt). *)
+From Coq Require Import List Arith Bool.
+From PG Require Import Base.ListSet Graph.MGraph Graph.MSep C06.Model C06.Enum C07.Model C07.Spec C07.Enum C07.Proofs C07.BoundedProp.
+Import ListNotations.
+
+Theorem valid_mag_local : valid_mag_local_stmt.
+Proof. exact C07.Proofs.valid_mag_local. Qed.
+Print Assumptions valid_mag_local.
+
+Theorem undirected_rejected : undirected_rejected_stmt.
+Proof. exact C07.Proofs.undirected_rejected. Qed.
+Print Assumptions undirected_rejected.
+
+Theorem has_adc_gap : has_adc_gap_stmt.
+Proof. exact C07.Proofs.has_adc_gap. Qed.
+Print Assumptions has_adc_gap.
+
+Theorem has_adc_bow_missed : has_adc_bow_missed_stmt.
+Proof. exact C07.Proofs.has_adc_bow_missed. Qed.
+Print Assumptions has_adc_bow_missed.
+
+Theorem maximal_is_separable_bounded_4 : forall n E Bi,
+  n <= 4 -> acyclicb (admg_of n E Bi) = true ->
+  (is_maximal_model (admg_of n E Bi) = true <-> maximal_p (admg_of n E Bi)).
+Proof. exact maximal_is_separable_bounded_4_prop. Qed.
+Print Assumptions maximal_is_separable_bounded_4.
+
+Theorem valid_mag_bounded_4 : forall n E Bi,
+  n <= 4 -> acyclicb (admg_of n E Bi) = true ->
+  let g := admg_of n E Bi in
+  (valid_mag_model g = true <-> U g = [] /\ no_bow_p g /\ acyclic_p g /\ ancestral_bi_p g /\ maximal_p g).
+Proof. exact valid_mag_bounded_4_prop. Qed.
+Print Assumptions valid_mag_bounded_4.
